@@ -242,18 +242,32 @@ type RScenario struct {
 	Seed    int64    `json:"seed"`    // permutation of the singleton registry's name enumeration
 	Preset  bool     `json:"preset"`  // every point's field holds a sentinel (pid 99, not a registered component) before the start
 	Extra   bool     `json:"extra"`   // processors.NewDependencyTypeAwarePostProcessors() is registered next to the default collector
+	ViaName bool     `json:"viaName"` // ... under an explicit name of the scanner's choosing (x<i>) instead of the one the component declares (only for providers with a custom name)
 	ViaMeta int      `json:"viaMeta"` // provider index (>= 2) registered by a user scanner through DefinitionRegistry.RegisterMeta instead of being handed to the App; 0 = none
 }
 
 // a user-written scanner that contributes a component definition of its own through the public registry API
 type metaAdder struct {
 	obj  any
+	name string // "" = under the name the component declares; else an explicit name of the scanner's choosing
+	alt  bool
 	once sync.Once
 }
 
 func (*metaAdder) Naming() string { return "zz-meta-adder" }
 func (a *metaAdder) PostProcessDefinitionRegistry(registry container.DefinitionRegistry, component any, name string) error {
-	a.once.Do(func() { registry.RegisterMeta(component_definition.NewMeta(a.obj)) })
+	a.once.Do(func() {
+		switch {
+		case a.name == "":
+			registry.RegisterMeta(component_definition.NewMeta(a.obj))
+		case a.alt:
+			registry.GetMetaOrRegister(a.name, a.obj)
+		default:
+			m := component_definition.NewMeta(a.obj)
+			m.SetName(a.name)
+			registry.RegisterMeta(m)
+		}
+	})
 	return nil
 }
 
@@ -354,6 +368,9 @@ func runResolve(sc *RScenario) []map[string]any {
 		c := mkProv(p.Ty, i+1, custom, p.Q)
 		comps[i] = c
 		n := framework_helper.GetComponentName(c) // the name the container registers it under
+		if sc.ViaName && sc.ViaMeta == i+1 && i >= 1 && p.Named {
+			n = fmt.Sprintf("x%d", i+1) // ... unless a scanner registers the definition under a name of its own
+		}
 		regName[i] = n
 		names[n] = i + 1
 	}
@@ -458,7 +475,11 @@ func runResolve(sc *RScenario) []map[string]any {
 		}
 	}
 	if sc.ViaMeta >= 2 && sc.ViaMeta <= len(comps) {
-		ordered = append(ordered, &metaAdder{obj: comps[sc.ViaMeta-1]})
+		ma := &metaAdder{obj: comps[sc.ViaMeta-1], alt: sc.Seed%2 == 0}
+		if sc.ViaName && sc.Prov[sc.ViaMeta-1].Named {
+			ma.name = regName[sc.ViaMeta-1]
+		}
+		ordered = append(ordered, ma)
 	}
 	status := "ok"
 	func() {
